@@ -10,7 +10,7 @@ import (
 	"verif/vkit"
 )
 
-const rule = "programs of 2-4 tasks x 1-4 operations from {Subscribe, Unsubscribe, Clear, Publish, HandlerCount} on 1-2 event types (same routing shard or not), every slot subscribed at most once, every handler with a recording filter (so the publish snapshot itself is observable), before/after context hooks, Once and Async options. Scheduled mode: the tasks run under a harness-owned cooperative scheduler inside a synctest bubble; a context switch can happen at every point where user code runs (operation start, before hook, each filter, each synchronous handler, after hook) and the schedule is a list of drawn integers that shrinks and replays. Free mode: the same programs on real goroutines (barrier, race detector, drawn GOMAXPROCS, Gosched noise) with call/return stamps from an atomic counter. Oracle = real-time-order invariants: per publish and registration at most one filter and one handler call, handler => accepted, accepted and not Once => handler ran; definitely-in (subscribed before the call, no removal started before the return) => took part exactly once; definitely-out => not at all; Once at most once overall; Unsubscribe succeeds/fails when the registration is certainly present/absent and at most once; subscription order within a publish; HandlerCount within the bounds of the interval; after quiescence HandlerCount equals the registrations taking part in a probe publish, none lost, none duplicated, none resurrected. Non-trivial = a registry mutation of type T overlapped a publish of T (neither definitely-in nor definitely-out)."
+const rule = "programs of 2-4 tasks x 1-4 operations from {Subscribe, Unsubscribe, Clear, Publish, HandlerCount} on 1-2 event types (same routing shard or not), every slot subscribed at most once, every handler with a recording filter (so the publish snapshot itself is observable), before/after context hooks, Once and Async options. Scheduled mode: the tasks run under a harness-owned cooperative scheduler inside a synctest bubble; a context switch can happen at every point where user code runs (operation start, before hook, each filter, each synchronous handler, after hook) and the schedule is a list of drawn integers that shrinks and replays. Free mode: the same programs on real goroutines, 40 executions each on fresh buses (barrier, race detector, drawn GOMAXPROCS, Gosched noise) with call/return stamps from an atomic counter. Oracle = real-time-order invariants: per publish and registration at most one filter and one handler call, handler => accepted, accepted and not Once => handler ran; definitely-in (subscribed before the call, no removal started before the return) => took part exactly once; definitely-out => not at all; Once at most once overall; Unsubscribe succeeds/fails when the registration is certainly present/absent and at most once; subscription order within a publish; HandlerCount within the bounds of the interval; after quiescence HandlerCount equals the registrations taking part in a probe publish, none lost, none duplicated, none resurrected. Non-trivial = a registry mutation of type T overlapped a publish of T (neither definitely-in nor definitely-out)."
 
 var collSched = vkit.NewCollector("C02", "TestScheduled", rule)
 var collFree = vkit.NewCollector("C02", "TestFreeRunning", rule)
